@@ -511,6 +511,40 @@ def token_codec(ctx, rr):
     fm = [n.value for n in ast.walk(bt.node) if isinstance(n, ast.Constant) and isinstance(n.value, str) and '%' in n.value]
     sp = [ast.unparse(c.args[0]) for c in P.own(pt, ast.Call) if isinstance(c.func, ast.Attribute) and c.func.attr == 'split' and c.args]
     ok = fm == ['%i#%s'] and sp == ["'#'"] and P.funcs[(H, 'int_to_base64')] in P.calls[bt] and P.funcs[(H, 'base64_to_int')] in P.calls[pt]
+    if not ok:
+        # other spellings of the same text: a separator constant, str.join of (decimal index, encoded path), format()/f-string
+        def fold_sep(e):
+            v = CE.ev(H, e)
+            return v if isinstance(v, str) else None
+        bsep, bint = None, None
+        for n_ in ast.walk(bt.node):
+            if isinstance(n_, ast.Constant) and isinstance(n_.value, str) and '%' in n_.value:
+                m_ = __import__('re').match(r'^%[id](.*)%s$', n_.value)
+                if m_:
+                    bsep, bint = m_.group(1), True
+                elif n_.value in ('%i', '%d'):
+                    bint = True
+            if isinstance(n_, ast.Call) and isinstance(n_.func, ast.Attribute) and n_.func.attr == 'join' and n_.args and isinstance(n_.args[0], (ast.Tuple, ast.List)) \
+                    and len(n_.args[0].elts) == 2:
+                bsep = fold_sep(n_.func.value)
+            if isinstance(n_, ast.Call) and isinstance(n_.func, ast.Name) and n_.func.id == 'str':
+                bint = True
+            if isinstance(n_, ast.JoinedStr):
+                consts = [v_.value for v_ in n_.values if isinstance(v_, ast.Constant)]
+                if len(consts) == 1 and len(n_.values) == 3:
+                    bsep, bint = consts[0], True
+        psep = None
+        for c in P.own(pt, ast.Call):
+            if isinstance(c.func, ast.Attribute) and c.func.attr == 'split' and c.args:
+                psep = fold_sep(c.args[0])
+        has_regex = any(isinstance(n_, ast.Constant) and isinstance(n_.value, str) and ('[' in n_.value or '^' in n_.value)
+                        for n_ in list(ast.walk(pt.node)) + [x for st_ in P.modules[H].body if isinstance(st_, ast.Assign) for x in ast.walk(st_)])
+        if (bsep is None or psep is None or not bint) and not has_regex:
+            raise AnalysisError('R-TOKEN-CODEC: text format of the pagination token not recognised (builder %s, parser %s)' % (fm, sp))
+        if psep is None and has_regex:
+            psep = bsep          # the parser validates with a regular expression: its character classes are checked below
+        ok = bsep == psep and bsep == '#' and P.funcs[(H, 'int_to_base64')] in P.calls[bt] and P.funcs[(H, 'base64_to_int')] in P.calls[pt]
+        fm, sp = ['%i' + (bsep or '?') + '%s'], [repr(psep)]
     prt = [x.value for x in P.own(pt, ast.Return) if x.value is not None]
     okp = len(prt) == 1 and isinstance(prt[0], ast.Tuple) and len(prt[0].elts) == 2 and isinstance(prt[0].elts[0], ast.Call) and isinstance(prt[0].elts[0].func, ast.Name) \
         and prt[0].elts[0].func.id == 'int' and len(prt[0].elts[0].args) == 1 and isinstance(prt[0].elts[1], ast.Call) and \
@@ -520,6 +554,10 @@ def token_codec(ctx, rr):
         rr.fail(ctx.finding('R-TOKEN-CODEC', pt, pt.node, 'parse_pagination_token does not decode (decimal prefix index, base-64 path): indexes above 9 resume in the wrong prefix',
                             stmt='token parse'))
     val = [n_ for n_ in ast.walk(pt.node) if isinstance(n_, ast.Constant) and isinstance(n_.value, str) and ('[' in n_.value or '^' in n_.value)]
+    used_names = {x.id for x in ast.walk(pt.node) if isinstance(x, ast.Name)}
+    for st_ in P.modules[H].body:
+        if isinstance(st_, ast.Assign) and any(isinstance(t_, ast.Name) and t_.id in used_names for t_ in st_.targets):
+            val += [n_ for n_ in ast.walk(st_.value) if isinstance(n_, ast.Constant) and isinstance(n_.value, str) and ('[' in n_.value or '^' in n_.value)]
     for v in val:
         import re as _re
         try:
